@@ -53,13 +53,21 @@ def plan(tier, seed):
     return t
 
 
-def check_case(case, rnd, retain=None):
+def check_case(case, rnd, retain=None, stab_cache=None):
     from htstabilizer.stabilizer_circuits import get_readout_circuit
     n = case["n"]
     vs = []
-    ok, st = call(ws.make_stabilizer, case, case["fmt"], random.Random(n))
+    # one Stabilizer object is used for all consecutive requests that describe the same generators in the same format
+    # (e.g. one member on all its configurations), as a caller holding on to its object would do
+    ckey = tuple(case["gens"])
+    if stab_cache is not None and stab_cache.get("key") == ckey and stab_cache.get("fmt") in ("str+", "str", "mat3", "mat") and case["fmt"] != "circuit":
+        ok, st = True, stab_cache["obj"]
+    else:
+        ok, st = call(ws.make_stabilizer, case, case["fmt"], random.Random(n))
     if not ok:
         return [("input-rejected n=%d fmt=%s" % (n, case["fmt"]), "Stabilizer() raised %s: %s" % (exc_name(st), st))], 0
+    if stab_cache is not None:
+        stab_cache["key"], stab_cache["obj"], stab_cache["fmt"] = ckey, st, st[1]
     stab, fmt_used = st
     if str(case.get("stratum", "")).startswith("table-representative") or h64(tuple(case["gens"])) % 16 == 0:
         # the caller first asks for the preparation circuit and goes on building on it (appends gates): must not matter
@@ -123,8 +131,9 @@ def work(task):
     p = Partial()
     rnd = random.Random(repr(task[-2:]))
     retain = Retained(digest_circuit, 600)
+    stab_cache = {}
     for case in wp.iter_cases(task):
-        vs, calls = check_case(case, rnd, retain)
+        vs, calls = check_case(case, rnd, retain, stab_cache)
         p.evals += max(calls, 1)
         p.counters["conf %d-%s" % (case["n"], case["conn"])] += 1
         p.counters["fmt " + case["fmt"]] += 1
